@@ -4,14 +4,19 @@
 Lean side: Props/C01.lean collects the safety obligations proved on the component models (index bounds, cursor
 invariants, termination of the page walk, reference counting) - see DESIGN.md section 7 "C01"; Props/C01Enh.lean adds
 the Level 2.5 / TOP obligations (add_modulo range, reads within cache_page_size, object page references balanced) on
-facts regenerated from the source by translate/gen_c01.py.
+facts regenerated from the source by translate/gen_c01.py; Props/C01Trig.lean the trigger parsers, the deferred trigger
+list and the caption ITV separator (model Trig/Model.lean, extents and code forms from translate/gen_trig.py).
 Implementation side: the whole decoder behind its public API, built with ASan+UBSan (and a second build with
 -fsanitize=bounds and an allow-list for the flat walks over two-dimensional arrays), driven by structured Teletext /
 caption / XDS / ITV / VPS / WSS streams interleaved with fetch, classify, title, link resolution, export, rendering and
-search; every op must return, every case ends with `delete` and the heap must be back to its initial level."""
+search; every op must return, every case ends with `delete` and the heap must be back to its initial level.
+Second stream (extra_checks, `_trig_stage`): src/trigger.c is #included by harness/trig_harness.c and driven with
+grammar-based, near-miss and malformed trigger strings in exact-size heap blocks, list histories and caption ITV text;
+the same ops run through `zvbi_model trig`; outputs are diffed (a fault predicted by the model must be the sanitizer
+report of the real code and vice versa) and the real code's outputs are judged by lib/trig_util.judge."""
 import os, re, subprocess, sys
 sys.path.insert(0, os.path.join(os.path.dirname(os.path.abspath(__file__)), "..", "lib"))
-import verif, decgen
+import verif, decgen, trig_util
 import ttxenc as T
 
 # flat walks over a whole 2-D member array (never leave the array object): not findings (DESIGN.md 4b)
@@ -44,16 +49,21 @@ def _addr_only(report):
 class C01(verif.Spec):
     prop = "C01"
     comp = "dec"
-    lean_modules = ["ZvbiModel.Props.C01", "ZvbiModel.Props.C01Ttx", "ZvbiModel.Props.C01Enh"]
+    lean_modules = ["ZvbiModel.Props.C01", "ZvbiModel.Props.C01Ttx", "ZvbiModel.Props.C01Enh", "ZvbiModel.Props.C01Trig"]
     harness = "dec_harness"
     timeout_per_case = 20.0
     partial_note = ("proved: the enumerated safety obligations on the component models (Props/C01.lean recursion bound, "
                     "Props/C01Ttx.lean index bounds of the packet decoder, Props/C01Enh.lean: add_modulo / TOP navigation page "
                     "numbers in range, vbi_convert_page and the page formatter read inside cache_page_size, every cache page "
-                    "reference taken by object invocation released on every path, POP pointer / triplet index bounds); "
+                    "reference taken by object invocation released on every path, POP pointer / triplet index bounds; "
+                    "Props/C01Trig.lean: trigger.c parsers never access memory outside the caller's string / url[] / buf[] / name[] / "
+                    "script[] for any byte string, terminate within strlen + 2 iterations, accept a checksum attribute only when it "
+                    "verifies, trigger list allocations balanced over all histories, itv_buf index <= 255 - for the source forms "
+                    "with fixes/C01-trig-*.diff; on the original forms five counterexample theorems + replays); "
                     "sanitizer-exercised only: exporters (html, vtx, png, xpm, ppm), ure.c regex engine, conv.c/iconv, "
                     "Level 2.5/3.5 attribute merging in teletext.c enhance() (enhance_flush, DRCS look-up references, F6), "
-                    "top_label / top_index cell writes, trigger.c parsing, MIP/MPT parsers beyond their index bounds")
+                    "top_label / top_index cell writes, MIP/MPT parsers beyond their index bounds, the Teletext trigger page path of "
+                    "packet.c (eacem_trigger: only its extent is a theorem)")
     assumptions = ["malloc does not fail", "callers pass buffers / canvases of the documented size"]
     trusted_base = ["harness/dec_harness.c + lean/Driver/Dec.lean (every well-formed op must return `ok`)",
                     "ASan/UBSan/LSan of gcc 12 as the judge of memory errors in the exercised runs",
@@ -61,8 +71,14 @@ class C01(verif.Spec):
                     "(checks/C01.py BOUNDS_ALLOW, ADDR_ONLY)",
                     "translate/gen_enh.py, translate/gen_c01.py (regex extraction of guards / release paths / expressions from "
                     "the C text, C probe for the layout; they stop with an error when the text is not recognised)",
-                    "int is 32-bit two's complement (add_modulo is evaluated on BitVec 32)"]
-    open_statements = ["whole-library memory safety for all inputs (only the enumerated obligations are theorems)"]
+                    "int is 32-bit two's complement (add_modulo is evaluated on BitVec 32)",
+                    "harness/trig_harness.c + lean/Driver/Trig.lean; translate/gen_trig.py (regex extraction of limits / table counts / "
+                    "code forms from trigger.c, caption.c, packet.c plus a digest of the remaining function text; C probe for the "
+                    "extents); vbi->time restricted to whole seconds in the trig stream (frame arithmetic then exact); TZ=UTC; "
+                    "uninitialised heap modelled as the harness allocator's 0xAA fill"]
+    open_statements = ["whole-library memory safety for all inputs (only the enumerated obligations are theorems)",
+                       "trigger round trip for all well-formed triggers (sender = lib/trig_util.Trig; checked by the oracle on "
+                       "generated triggers, not a theorem)"]
 
     def gen_cases(self, rng, tier):
         n = 600 if tier == "quick" else 6000
@@ -156,7 +172,112 @@ class C01(verif.Spec):
     def signature(self, case, what):
         return re.sub(r"\d+", "N", what)[:160]
 
+    TRIG_OPS = ("eacem", "atvef", "itv", "time", "tick", "nuid", "flush", "extents")
+
+    def _is_trig(self, case):
+        return bool(case) and case[0].split()[0] in self.TRIG_OPS
+
     def extra_checks(self, ctx):
+        self.extra_coverage = {}
+        if ctx.get("replay"):
+            c = ctx["cases"][0] if ctx["cases"] else []
+            return self._trig_stage(ctx, [c]) if self._is_trig(c) else self._bounds_stage(ctx)
+        return self._bounds_stage(ctx) + self._trig_stage(ctx, None)
+
+    def _trig_stage(self, ctx, only):
+        """trigger.c: correspondence model ~ real code on the trig stream + oracle (lib/trig_util.judge)"""
+        import time as _t
+        t0 = _t.time()
+        exe, err = verif.build_harness("trig_harness")
+        if exe is None:
+            return [("trig harness build failed: " + err[-400:], [])]
+        tier, rng = ctx["tier"], ctx["rng"]
+        cases, expects, kinds = [], [], []
+        if only is not None:
+            cases, expects, kinds = list(only), [None] * len(only), ["replay"] * len(only)
+        else:
+            for f, lines in verif.corpus_cases(self.prop):
+                if self._is_trig(lines):
+                    cases.append(lines); expects.append(None); kinds.append("corpus:" + f)
+            for _ in range(1200 if tier == "quick" else 20000):
+                ops, exp, kind = trig_util.gen_case(rng)
+                cases.append(ops); expects.append(exp); kinds.append(kind)
+        mout, minc = verif.run_side(ctx["mcmd"][:1] + ["trig"], cases, 5.0)
+        out = []
+        for x in minc[:3]:
+            out.append(("trig: model driver %s" % x["kind"], cases[x["case"]]))
+        # a fault the model predicts is a crash of the real code: confirm each predicted fault kind on the real code a few
+        # times (all corpus cases, 4 generated ones per kind), the others are not run (a crash costs a process start)
+        run_idx, skipped, seen = [], 0, {}
+        for i, c in enumerate(cases):
+            f = next((l for l in mout.get(i, []) if l.startswith("fault")), None)
+            if f and not kinds[i].startswith(("corpus", "replay")):
+                seen[f] = seen.get(f, 0) + 1
+                if seen[f] > 4:
+                    skipped += 1
+                    continue
+            run_idx.append(i)
+        sub = [cases[i] for i in run_idx]
+        iout, iinc = verif.run_side([exe], sub, 5.0)
+        inc = {x["case"]: x for x in iinc}
+        validated = disagreements = oracle_runs = roundtrips = 0
+        hist, faults = {}, {}
+        SAN = {"oob": "buffer-overflow", "uaf": "heap-use-after-free", "ovf": "signed integer overflow"}
+        for j, i in enumerate(run_idx):
+            c, m, o = cases[i], mout.get(i, []), iout.get(j, [])
+            k = kinds[i].split(":")[0]
+            hist[k] = hist.get(k, 0) + 1
+            f = next((n for n, l in enumerate(m) if l.startswith("fault")), None)
+            if j in inc:
+                det = inc[j]["detail"]
+                sm = verif.summarize_san(det)
+                kd = re.search(r"heap-use-after-free|heap-buffer-overflow|stack-buffer-overflow|global-buffer-overflow|"
+                               r"signed integer overflow|SEGV|Assertion|LeakSanitizer", sm)
+                fn = re.search(r" in (\w+ \([\w.-]+\))$", sm)
+                what = "trig: %s of the real code: %s in %s [model: %s]" % (
+                    inc[j]["kind"], kd.group(0) if kd else sm[:80], fn.group(1) if fn else "?",
+                    m[f][6:] if f is not None else "no fault predicted")
+                out.append((what, c))
+                if f is None or o[:f] != m[:f] or len(o) != f or SAN.get(m[f].split()[1], "?") not in det:
+                    disagreements += 1
+                    out.append(("trig correspondence model~code: the model does not predict this fault (model: %s)"
+                                % (m[f] if f is not None else "no fault"), c))
+                else:
+                    validated += 1
+                    faults[m[f]] = faults.get(m[f], 0) + 1
+                continue
+            if f is not None:
+                disagreements += 1
+                out.append(("trig correspondence model~code: the model predicts `%s`, the real code ran on" % m[f], c))
+                continue
+            d = verif.first_diff(o, m)
+            if d is not None:
+                disagreements += 1
+                if disagreements <= 5:
+                    out.append(("trig correspondence model~code: op#%d impl `%s` model `%s`" % (d[0], d[1][:120], d[2][:120]), c))
+                continue
+            validated += 1
+            oracle_runs += 1
+            if expects[i]:
+                roundtrips += len(expects[i])
+            w = trig_util.judge(c, o, expects[i])
+            if w:
+                out.append((w, c))
+        self.extra_coverage["trig"] = {
+            "cases": len(cases), "run_on_real_code": len(sub), "skipped_repeated_predicted_fault": skipped,
+            "traces_validated_against_impl": validated, "correspondence_disagreements": disagreements,
+            "oracle_runs": oracle_runs, "round_trip_expectations_checked": roundtrips, "input_distribution": hist,
+            "model_predicted_faults_confirmed_by_sanitizer": faults, "wall_s": round(_t.time() - t0, 1)}
+        # one violation per signature is enough
+        uniq, res = set(), []
+        for w, c in out:
+            sg = self.signature(c, w)
+            if sg not in uniq:
+                uniq.add(sg)
+                res.append((w, c))
+        return res
+
+    def _bounds_stage(self, ctx):
         """second build: -fsanitize=bounds (recoverable), same cases' first part; any report outside the allow-list"""
         out = []
         flags = ["-O1", "-g", "-fsanitize=bounds", "-fsanitize-recover=bounds", "-fno-omit-frame-pointer"]
@@ -175,7 +296,7 @@ class C01(verif.Spec):
         for line in p.stderr.decode("utf-8", "replace").split("\n"):
             if "runtime error: index" in line and not any(re.search(a, line) for a in BOUNDS_ALLOW) and not _addr_only(line):
                 rep.add(re.sub(r"^.*/src/", "", line.strip()))
-        self.extra_coverage = {"bounds_build_cases": len(cases), "bounds_reports_outside_allowlist": sorted(rep)}
+        self.extra_coverage.update({"bounds_build_cases": len(cases), "bounds_reports_outside_allowlist": sorted(rep)})
         st = re.findall(r"^DECSTATS (.*)$", p.stderr.decode("utf-8", "replace"), flags=re.M)
         reach = {}
         for line in st:                      # one line per harness process (the run is one process unless a case crashed)
